@@ -405,7 +405,13 @@ def run_py(case):
 def _run_py(case):
     action, task, exc = _mods()
     fn = make_callable(case)
-    if case.get('notask'):
+    if case.get('cls') == 'interactive':
+        # doit.tools.PythonInteractiveAction: no capture, no stream swap, only exceptions make it unsuccessful
+        from doit import tools
+        a0 = tools.PythonInteractiveAction(fn[0], fn[1]) if isinstance(fn, tuple) else tools.PythonInteractiveAction(fn)
+        t = task.Task('t', [a0], verbosity=case.get('v'), io=io_arg(case.get('capture', True)))
+        act = t.actions[0]
+    elif case.get('notask'):
         act = action.PythonAction(fn[0], fn[1]) if isinstance(fn, tuple) else action.PythonAction(fn)
         t = None
     else:
@@ -437,6 +443,12 @@ def _run_py(case):
 # ----------------------------------------------------------------------------------------------
 # kind 'cmd'
 
+# what the task of a cmd case looks like when the command uses task data (`world`)
+# (the parameter value has braces: in mode `both` a value inserted by `%` must not be seen by `.format` again)
+WORLD = {'targets': ['tg a', 'tgb'], 'dependencies': ['d1'], 'changed': ['d1'], 'opt1': 'd{0}f{}lt'}
+ENV_VALUE = {'C17VAR': 'from env', 'C17EMPTY': ''}
+
+
 def chunk_bytes(spec):
     if 'hex' in spec:
         return bytes.fromhex(spec['hex'])
@@ -444,17 +456,61 @@ def chunk_bytes(spec):
         return bytes.fromhex(spec['rep']) * spec['n']
     if 'text' in spec:
         return spec['text'].encode('utf-8')
+    if 'enc_text' in spec:          # text in the action's own encoding
+        enc = spec.get('enc', 'utf-8')
+        return spec['enc_text'].encode('utf-16-le' if enc == 'utf-16' else enc, 'replace')
+    if 'env' in spec:               # printed from the environment handed to CmdAction(env=…)
+        return ENV_VALUE[spec['env']].encode('utf-8')
+    if 'subst' in spec or 'magic' in spec:   # task data through the string format / the callable's kwargs
+        v = WORLD[spec.get('subst') or spec['magic']]
+        return (v if isinstance(v, str) else ' '.join(v)).encode('utf-8')
+    if 'lit' in spec:               # literal text with % and braces that must survive the string format
+        return spec['lit'].encode('utf-8')
     raise ValueError(spec)
 
 
-def cmd_script(case, workdir):
-    """shell text for the chunks + exit; the chunk files are written into workdir"""
+def fmt_escape(text, fmt):
+    if fmt in ('old', 'both'):
+        text = text.replace('%', '%%')
+    if fmt in ('new', 'both'):
+        text = text.replace('{', '{{').replace('}', '}}')
+    return text
+
+
+def expands(case):
+    """is the command a string that goes through the `%` / `.format` expansion?"""
+    return case.get('form', 'str') in ('str', 'rawstr', 'callable', 'callable_magic')
+
+
+def cmd_script(case, workdir, received=None):
+    """shell text for the chunks + exit; the chunk files are written into workdir (or referenced relative to
+    the `cwd` of the action).  `received`: kwargs a `callable_magic` command builder got from doit."""
+    fmt = case.get('fmt', 'old') if expands(case) else None
+    esc = (lambda t: fmt_escape(t, fmt)) if fmt else (lambda t: t)
+    filedir = os.path.join(workdir, 'cwd dir') if case.get('cwd') else workdir
+    os.makedirs(filedir, exist_ok=True)
     parts = []
     for i, (chan, spec) in enumerate(case.get('chunks', [])):
-        path = os.path.join(workdir, 'c%d' % i)
+        redir = ' >&2' if chan == 'e' else ''
+        if 'env' in spec:
+            parts.append(esc('printf %%s "$%s"%s' % (spec['env'], redir)))
+            continue
+        if 'subst' in spec and fmt:
+            name = spec['subst']
+            ph = '{%s}' % name if (fmt == 'new' or (fmt == 'both' and i % 2)) else '%%(%s)s' % name
+            parts.append(esc("printf %s '") + ph + esc("'" + redir))
+            continue
+        if 'lit' in spec:
+            parts.append(esc("printf %%s '%s'%s" % (spec['lit'], redir)))
+            continue
+        path = os.path.join(filedir, 'c%d' % i)
+        data = chunk_bytes(spec)
+        if 'magic' in spec and received is not None:
+            v = received.get(spec['magic'])
+            data = (v if isinstance(v, str) else ' '.join(v)).encode('utf-8') if v is not None else b'<missing>'
         with open(path, 'wb') as f:
-            f.write(chunk_bytes(spec))
-        parts.append('cat %s%s' % (path, ' >&2' if chan == 'e' else ''))
+            f.write(data)
+        parts.append(esc('cat %s%s' % ("'c%d'" % i if case.get('cwd') else path, redir)))
     ex = case.get('exit', ['status', 0])
     if ex[0] == 'status':
         parts.append('exit %d' % ex[1])
@@ -474,10 +530,47 @@ def expected_rc(case):
     return 128 + ex[1]
 
 
-def expected_streams(case):
+def stream_bytes(case):
     out = b''.join(chunk_bytes(s) for c, s in case.get('chunks', []) if c == 'o')
     err = b''.join(chunk_bytes(s) for c, s in case.get('chunks', []) if c == 'e')
-    return out.decode('utf-8', 'replace'), err.decode('utf-8', 'replace')
+    return out, err
+
+
+def py_codec(case):
+    return case.get('encoding', 'utf-8'), case.get('decode_error', 'replace')
+
+
+def simulate_decode(case, data):
+    """(text, raised): what an incremental decoder fed with the reader's reads (lines, or `buffering`-byte
+    blocks) produces; `raised`: the codec raises (decode_error='strict' on undecodable bytes, 'utf-16' without BOM)
+    -- the reader thread then terminates the process and dies, the text decoded so far stays captured"""
+    import codecs
+    enc, err = py_codec(case)
+    n = case.get('buffering') or 0
+    if n:
+        reads = [data[i:i + n] for i in range(0, len(data), n)]
+    else:
+        reads = [ln + b'\n' for ln in data.split(b'\n')]          # readline(): lines end at 0x0a only
+        reads[-1] = reads[-1][:-1]
+    dec = codecs.getincrementaldecoder(enc)(err)
+    text = ''
+    try:
+        for r in reads:
+            text += dec.decode(r)
+        text += dec.decode(b'', final=True)
+    except UnicodeError:
+        return text, True
+    return text, False
+
+
+def strict_error(case):
+    """[decoder raises on stdout?, on stderr?]"""
+    return [simulate_decode(case, d)[1] for d in stream_bytes(case)]
+
+
+def expected_streams(case):
+    out, er = stream_bytes(case)
+    return simulate_decode(case, out)[0], simulate_decode(case, er)[0]
 
 
 def make_cmd_action(case, workdir):
@@ -486,35 +579,61 @@ def make_cmd_action(case, workdir):
     kw = {'save_out': KEYS[case['save_out']] if case.get('save_out') is not None else None}
     if case.get('buffering'):
         kw['buffering'] = case['buffering']
+    if case.get('encoding'):
+        kw['encoding'] = case['encoding']
+    if case.get('decode_error'):
+        kw['decode_error'] = case['decode_error']
+    if case.get('env'):
+        kw['env'] = dict(ENV_VALUE, PATH=os.environ.get('PATH', '/usr/bin:/bin'))
+    if case.get('cwd'):
+        kw['cwd'] = os.path.join(workdir, 'cwd dir')
+    cls = action.CmdAction
+    if case.get('cls', 'CmdAction') != 'CmdAction':
+        from doit import tools
+        cls = getattr(tools, case['cls'])
     expand = case.get('expand', 'ok')
     form = case.get('form', 'str')
     if expand == 'badkey':
-        return action.CmdAction(script + ' # %(nokey)s', **kw)
+        return cls(script + ' # %(nokey)s', **kw)
     if expand == 'badelem':
-        return action.CmdAction(['sh', '-c', script, 7], shell=False, **kw)
+        return cls(['sh', '-c', script, 7], shell=False, **kw)
     if expand == 'callable_raises':
         def mk():
             raise ValueError('cannot build the command')
-        return action.CmdAction(mk, **kw)
-    if form in ('rawstr', 'rawlist') and kw == {'save_out': None}:
+        return cls(mk, **kw)
+    if form in ('rawstr', 'rawlist') and kw == {'save_out': None} and cls is action.CmdAction:
         # left to `create_action`: a str becomes CmdAction(shell=True), a list CmdAction(shell=False)
         return script if form == 'rawstr' else ['sh', '-c', script]
     if form in ('list', 'rawlist'):
-        return action.CmdAction(['sh', '-c', script], shell=False, **kw)
+        return cls(['sh', '-c', script], shell=False, **kw)
     if form == 'callable':
-        return action.CmdAction(lambda: script, **kw)
-    return action.CmdAction(script, **kw)
+        return cls(lambda: script, **kw)
+    if form == 'callable_list':
+        return cls(lambda: ['sh', '-c', script], shell=False, **kw)
+    if form == 'callable_magic':
+        # the command builder takes doit's magic kwargs and a task parameter; what it received ends up in the output
+        def build(targets, dependencies, changed, opt1, task):
+            return cmd_script(case, workdir, {'targets': targets, 'dependencies': dependencies,
+                                              'changed': changed, 'opt1': opt1})
+        return cls(build, **kw)
+    return cls(script, **kw)
+
+
+def cmd_task(case, act, cap):
+    action, task, exc = _mods()
+    kw = {}
+    if case.get('world'):
+        kw = {'targets': list(WORLD['targets']), 'file_dep': list(WORLD['dependencies']),
+              'params': [{'name': 'opt1', 'default': WORLD['opt1'], 'long': 'opt1'}]}
+    t = task.Task('t', [act], verbosity=case.get('v'), io=io_arg(cap), **kw)
+    if case.get('world'):
+        t.dep_changed = list(WORLD['changed'])
+    return t
 
 
 def chunkwise_decode(data, n):
     """what decoding every n-byte read on its own gives (the known defect F-C17c)"""
     return ''.join(data[i:i + n].decode('utf-8', 'replace') for i in range(0, len(data), n))
-
-
-def stream_bytes(case):
-    out = b''.join(chunk_bytes(s) for c, s in case.get('chunks', []) if c == 'o')
-    err = b''.join(chunk_bytes(s) for c, s in case.get('chunks', []) if c == 'e')
-    return out, err
 
 
 def run_cmd(case):
@@ -527,9 +646,25 @@ def _run_cmd(case):
     try:
         act = make_cmd_action(case, work)
         cap = case.get('capture', True)
-        t = task.Task('t', [act], verbosity=case.get('v'), io=io_arg(cap))
+        t = cmd_task(case, act, cap)
         act = t.actions[0]
         fdo, fde = os.path.join(work, 'fd1'), os.path.join(work, 'fd2')
+        # doit.tools classes never capture: they hand the live streams to Popen
+        cap = cap and case.get('cls', 'CmdAction') == 'CmdAction'
+        old_fmt = action.CmdAction.STRING_FORMAT
+        action.CmdAction.STRING_FORMAT = case.get('fmt', 'old')
+        import subprocess
+        old_wait = subprocess.Popen.wait
+        if case.get('interrupt'):
+            fired = []
+
+            def wait(self, timeout=None):
+                r = old_wait(self, timeout)
+                if not fired:
+                    fired.append(1)
+                    raise KeyboardInterrupt()      # Ctrl-C while waiting for the process
+                return r
+            subprocess.Popen.wait = wait
         if cap:
             o, e = Rec(), Rec()
         else:
@@ -553,6 +688,8 @@ def _run_cmd(case):
                 ret, raised = call(lambda: t.execute(task.Stream(case.get('stream_v', case.get('v')))))
                 ident = sw.identity()
         finally:
+            action.CmdAction.STRING_FORMAT = old_fmt
+            subprocess.Popen.wait = old_wait
             os.dup2(saved[0], 1)
             os.dup2(saved[1], 2)
             for fd in saved + (f1, f2):
